@@ -343,8 +343,7 @@ def _coqchk(ctx, module, res):
 
 def coq_eval(ctx, res, name, text, timeout=900, what=None):
     """like ctx.coq_eval, but the generated file may import UVS.* (the translated source of this run)"""
-    os.makedirs(coqrun.GEN, exist_ok=True)
-    path = os.path.join(coqrun.GEN, name + ".v")
+    path = os.path.join(coqrun.gen_dir(), name + ".v")
     with open(path, "w") as f:
         f.write(text)
     ok, so, se, _ = _coqc(path, res.dir, timeout)
